@@ -202,6 +202,17 @@ def analyze_module(src, modname, is_init, modules):
                     allst = ["lit", allst[1] + [e.value for e in st.value.elts], allst[2]]
                 else:
                     allst = ["dyn"]
+        elif isinstance(st, ast.Delete):
+            # `del name` at top level: whatever bound the name before is gone (a later statement may bind it again)
+            out = []
+            for t in st.targets:
+                _target_names(t, out)
+            for n, k in out:
+                kinds.pop(n, None)
+                alias_clash.discard(n)
+                aliased_submodules.discard(n)
+                if n == "__all__":
+                    allst = None
         elif isinstance(st, ast.Import):
             for a in st.names:
                 add(a.asname or a.name.split(".")[0], "import_foreign")
@@ -331,13 +342,16 @@ def target_file(case, t):
 # ----------------------------------------------------------------------------------------------
 
 def _abs_target(t):
+    """Model `Target`: a Name; a tuple/list/starred pattern with its Store-context names ("p") and the names that
+    occur in Load context inside it ("l"); anything else (attribute / subscript) with its Load-context names.
+    The contexts are CPython's own (`ast.Name.ctx`); the model, like the code, must only use the Store ones."""
     if isinstance(t, ast.Name):
         return {"n": t.id}
+    names = [n for n in ast.walk(t) if isinstance(n, ast.Name)]
+    loads = [n.id for n in names if isinstance(n.ctx, ast.Load)]
     if isinstance(t, (ast.Tuple, ast.List, ast.Starred)):
-        out = []
-        _target_names(t, out, False)
-        return {"p": [n for n, k in out]}
-    return {"o": 1}
+        return {"p": [n.id for n in names if isinstance(n.ctx, ast.Store)], "l": loads}
+    return {"o": 1, "l": loads}
 
 
 def _abs_val(v):
@@ -370,6 +384,16 @@ def abstract_items(src):
         elif isinstance(st, ast.ImportFrom):
             items.append({"k": "from", "level": st.level, "module": (st.module.split(".") if st.module else None),
                           "aliases": [{"name": a.name, "as": a.asname} for a in st.names]})
+        elif isinstance(st, ast.Delete):
+            # "names": plain Name targets (what the code looks at); "nested": names deleted through a parenthesised
+            # tuple / list target; attribute / subscript targets delete no module-level name
+            nested = []
+            for t in st.targets:
+                if not isinstance(t, ast.Name):
+                    out = []
+                    _target_names(t, out, False)
+                    nested.extend(n for n, k in out)
+            items.append({"k": "del", "names": [t.id for t in st.targets if isinstance(t, ast.Name)], "nested": nested})
         elif isinstance(st, ast.Import):
             items.append({"k": "import", "aliases": [{"name": a.name.split("."), "as": a.asname} for a in st.names]})
         else:
@@ -408,10 +432,10 @@ def model_variant():
     """which code the model is asked to follow: the status of D8 / D31 in known_findings/C19.json"""
     from vcommon import load_known_findings
     st = {e["id"]: e.get("status") for e in load_known_findings("C19")}
-    v = {"d8": st.get("D8") == "fixed", "d31": st.get("D31") == "fixed"}
+    v = {"d8": st.get("D8") == "fixed", "d31": st.get("D31") == "fixed", "d53": st.get("D53") == "fixed"}
     ov = os.environ.get("VERIF_C19_VARIANT")       # dev aid for testing a fix in a scratch worktree: "d8", "d31", "d8,d31"
     if ov is not None:
-        v = {"d8": "d8" in ov.split(","), "d31": "d31" in ov.split(",")}
+        v = {"d8": "d8" in ov.split(","), "d31": "d31" in ov.split(","), "d53": "d53" in ov.split(",")}
     return v
 
 
@@ -429,6 +453,16 @@ class C19(Prop):
         "Pfb.C19.C19_exact_fixed",
         "Pfb.C19.C19_total",
         "Pfb.C19.C19_importable_partial",
+        "Pfb.C19.C19_store_only",
+        "Pfb.C19.C19_deleted_not_exported",
+        "Pfb.C19.mem_live_iff",
+        "Pfb.C19.Witness.d53_current",
+        "Pfb.C19.Witness.d53_fixed",
+        "Pfb.C19.Witness.d53_rebind",
+        "Pfb.C19.Witness.del_nested_fixed",
+        "Pfb.C19.Witness.del_reexport_fixed",
+        "Pfb.C19.Witness.load_ctx_fixed",
+        "Pfb.C19.Witness.load_ctx_current",
         "Pfb.C19.C19_replace_kept",
         "Pfb.C19.C19_replace_sound",
         "Pfb.C19.C19_replace_no_star_left",
@@ -498,6 +532,9 @@ class C19(Prop):
         "from {P}.sub import sx", "from {P}.sub import sy as a", "from {P} import sub", "import {P}.sub",
         "__all__ = ['a']", "__all__ = ('a', 'b')", "__all__ = ['_a', 'a']", "__all__ = []", "__all__ += ['b']",
         "__all__ = ['a'] + ['b']", "__all__ += list(('b',))", "__all__: list = ['a']", "__all__ = ['a', 1]",
+        "import os\nos.environ['K_C19'] = 'v'", "from {F} import FK\nFK.flag, b = [1], [2]",
+        "from {F} import fd, i0\nfd[i0] = [1]", "from json import decoder\ndecoder.C19_FLAG: bool = True",
+        "del a", "del a, b", "a = [0]\ndel a", "def b():\n    pass\ndel b\nb = [1]",
         "if True:\n    a = [1]", "try:\n    b = [1]\nexcept Exception:\n    b = None", "pass",
     ]
     INIT_ONLY = ["from .sub import sx", "from .sub import sy as a", "from . import sub", "from .sub import *",
@@ -514,6 +551,10 @@ class C19(Prop):
             for n, (i, j) in enumerate(pairs):
                 tag = "e%s%03d%03d" % (kind[0], i, j)
                 u = gen_c19.U(tag)
+                if T[j].startswith("del ") and T[i].startswith(("from {P}", "from .")) and (" as a" in T[i] or " as b" in T[i]):
+                    # `del` of an own-package re-export: the clean tree still exports it (candidate defect CD-D,
+                    # reported, Witness.del_reexport_fixed) - not generated
+                    continue
                 src = "\n".join(T[k].replace("{F}", u.F).replace("{P}", u.P) for k in (i, j)) + "\n"
                 try:
                     compile(src, "<t>", "exec")
